@@ -190,6 +190,8 @@ func runC42(x *simkit.Exec) {
 	dense := x.Bool("dense-series", 1, 3)
 	x.Sample = map[string]any{"config": cfg.String(), "cache": cacheMode, "tenants": ntenants, "requests": len(all), "faults": faults}
 
+	col := &collector{}
+	defer col.flush(x)
 	x.Bubble("c42", func(s *simkit.Sim) {
 		if now := time.Now().UnixMilli(); now != bubbleEpochMs {
 			x.Troublef("fake clock starts at %d, expected %d", now, bubbleEpochMs)
@@ -317,7 +319,7 @@ func runC42(x *simkit.Exec) {
 				}
 				// a sibling client request never shares sub-requests, so without an injected failure on
 				// its own sub-requests a request must not fail
-				s.Violate("no-error-without-fault", "error-without-fault", "request %s failed with no injected fault while the chain without cache answers it.\nconfig: %s cache=%s\nrequest: %s\noutcome: %s\nhistory of the tenant (completion order):\n%s",
+				col.add("no-error-without-fault", "error-without-fault", "request %s failed with no injected fault while the chain without cache answers it.\nconfig: %s cache=%s\nrequest: %s\noutcome: %s\nhistory of the tenant (completion order):\n%s",
 					r.tag.id, cfg, cacheMode, r.clientReq, r.got.brief(), history(r.tenantIdx))
 				continue
 			}
@@ -335,7 +337,7 @@ func runC42(x *simkit.Exec) {
 				continue
 			}
 			if err1 != nil {
-				s.Violate("cached-answer-decodes", "undecodable-response", "request %s: response through the cache does not decode: %v\n%s", r.tag.id, err1, trunc(string(r.got.Body), 500))
+				col.add("cached-answer-decodes", "undecodable-response", "request %s: response through the cache does not decode: %v\n%s", r.tag.id, err1, trunc(string(r.got.Body), 500))
 				continue
 			}
 			if len(want) > 0 {
@@ -356,7 +358,7 @@ func runC42(x *simkit.Exec) {
 			} else if hit {
 				inv = "cached-answer-equals-direct.same-step-entry-used"
 			}
-			s.Violate(inv, class, "request %s answered through the results cache differs from the same chain without the cache.\nconfig: %s cache=%s(cap %d)\nrequest: %s\n%s\ncache entries found for this request:\n  %s\nthrough cache:\n%swithout cache:\n%shistory of the tenant (completion order):\n%s",
+			col.add(inv, class, "request %s answered through the results cache differs from the same chain without the cache.\nconfig: %s cache=%s(cap %d)\nrequest: %s\n%s\ncache entries found for this request:\n  %s\nthrough cache:\n%swithout cache:\n%shistory of the tenant (completion order):\n%s",
 				r.tag.id, cfg, cacheMode, capacity, r.clientReq, detail, strings.Join(r.hits, "\n  "), got, want, history(r.tenantIdx))
 		}
 	})
